@@ -918,7 +918,7 @@ func (r *Runtime) regexpproto_stdSplitterGeneric(splitter *Object, s String, lim
 	if limit == nil || limit == _undefined {
 		lim = maxInt - 1
 	} else {
-		lim = toLength(limit)
+		lim = int64(toUint32(limit))
 	}
 	if lim == 0 {
 		return r.newArrayValues(a)
